@@ -2,6 +2,7 @@
     Only theorem statements; every proof is [exact <lemma>]. *)
 From Coq Require Import Permutation Sorting.Sorted.
 From CG3 Require Import Lib.PyZ Model.AnnotDb Spec.AnnotDbSpec Proofs.AnnotDbProofs.
+From CG3 Require Import Model.AnnotDbGff Proofs.AnnotDbGffProofs.
 From CG3gen Require Import OverlapGen.
 
 (** the 4-clause SQL overlap test the current source emits is interval overlap *)
@@ -58,3 +59,54 @@ Proof. exact union_multiset. Qed.
 
 Theorem update_preserves_multiset : forall a b, Permutation (db_update a b) (a ++ b).
 Proof. exact update_multiset. Qed.
+
+(** ---------- GFF text loaded in blocks of [lines_per_block] lines ----------
+    [load fixed N lines]: the loop of [_db_from_gff] over [iter_line_blocks]
+    with the fake-id counter, the set of seen names and the span merging;
+    [fixed] selects the rule for a name met again in a later block (as first
+    read / as repaired, see Model/AnnotDbGff.v). *)
+
+(** when no two rows share an ID the table is the one-record-per-row table of
+    the text, for every block size and both rules (induction over the blocks;
+    the carried counter keeps the names of ID-less rows apart) *)
+Theorem gff_load_one_record_per_row : forall fixed N lines,
+  NoDup (real_ids (data_lines lines)) ->
+  st_db (load fixed N lines) = rows_of_lines (data_lines lines).
+Proof. exact load_distinct_ids. Qed.
+
+Theorem gff_load_independent_of_lines_per_block_partial : forall fixed fixed' N N' lines,
+  NoDup (real_ids (data_lines lines)) ->
+  st_db (load fixed N lines) = st_db (load fixed' N' lines).
+Proof. exact load_independent_of_block_size. Qed.
+
+Theorem gff_fake_id_counter_carried_across_blocks : forall fixed N lines,
+  NoDup (real_ids (data_lines lines)) -> st_k (load fixed N lines) = nfake (data_lines lines).
+Proof. exact load_counter. Qed.
+
+(** one record of that table: the row's own columns, 1-based closed -> 0-based half-open, start/stop its ends *)
+Theorem gff_row_record : forall n l,
+  1 <= gl_s l <= gl_e l ->
+  let r := mk_grow (single n l) in
+  gr_name r = n /\ gr_line r = l /\ gr_spans r = [(gl_s l - 1, gl_e l)] /\
+  gr_start r = gl_s l - 1 /\ gr_stop r = gl_e l.
+Proof. exact row_of_line. Qed.
+
+(** the full statement (no hypothesis on IDs) is false of the rule as first
+    read: a feature whose rows fall into different blocks is stored twice and
+    the first record keeps a stale start/stop (finding C17-3) *)
+Definition stmt_gff_load_independent_of_lines_per_block : Prop :=
+  forall N N' lines, 0 < N -> 0 < N' -> st_db (load false N lines) = st_db (load false N' lines).
+
+Theorem gff_load_independent_of_lines_per_block_refuted :
+  exists N N' lines, 0 < N /\ 0 < N' /\ st_db (load false N lines) <> st_db (load false N' lines).
+Proof. exact split_feature_depends_on_block_size. Qed.
+
+Theorem gff_split_feature_extent_refuted :
+  exists r, In r (st_db (load false 2 split_file)) /\ gr_stop r <> spans_max (gr_spans r).
+Proof. exact split_feature_stale_extent. Qed.
+
+(** the repaired rule on the witness *)
+Theorem gff_split_feature_repaired :
+  st_db (load true 2 split_file) = st_db (load true 3 split_file) /\
+  Forall (fun r => gr_start r = spans_min (gr_spans r) /\ gr_stop r = spans_max (gr_spans r)) (st_db (load true 2 split_file)).
+Proof. exact split_feature_repaired. Qed.
